@@ -583,6 +583,10 @@ func c18RunHist(h c18Hist) (res c18Result, err error) {
 
 func c18Emit(e *Emitter, h c18Hist) error {
 	res, err := c18RunHist(h)
+	for try := 0; err != nil && errors.Is(err, errC18Bracket) && try < 8; try++ {
+		e.Extra["bracket_retries"] = toInt(e.Extra["bracket_retries"]) + 1
+		res, err = c18RunHist(h)
+	}
 	if err != nil {
 		return err
 	}
@@ -648,7 +652,6 @@ func c18Gen(r *Rng, drv string, ka bool, maxLen int) c18Hist {
 			h.rem = int64(r.Intn(int(h.max) + 1))
 		}
 	}
-	component := drv == "mon" || drv == "conns" || drv == "ka" || drv == "kaconns"
 	n := 3 + r.Intn(maxLen-2)
 	now := int64(0)    // virtual time of the latest event
 	lastRx := int64(0) // virtual time of the latest message
@@ -678,13 +681,29 @@ func c18Gen(r *Rng, drv string, ka bool, maxLen int) c18Hist {
 			}
 			now = t
 			ok := true
-			if ka && (component || drv == "udp" || drv == "udpconns") && r.Chance(7) {
+			if ka && drv != "srv" && r.Chance(7) {
 				ok = false
 			}
 			h.evs = append(h.evs, c18Ev{kind: 'T', t: t, ok: ok})
 			if ka {
 				gens++
 			}
+		case drv == "srv": // datagram path of the server: distances around period - look-ahead
+			look := c18Lookahead()
+			var t int64
+			if r.Chance(60) {
+				t = lastRx + P - look + []int64{-200 * c18Ms, -3 * c18Ms, 1, c18Ms, 200 * c18Ms, look, look + 1}[r.Intn(7)]
+			} else {
+				t = now + c18Step(r, P)
+			}
+			if t < now {
+				t = now
+			}
+			if m := P - look - (t - lastRx); m >= 0 && m < 3*c18Ms {
+				t = lastRx + P - look + 1
+			}
+			now, lastRx = t, t
+			h.evs = append(h.evs, c18Ev{kind: 'D', t: t, ok: true})
 		case k < 78: // other message
 			now += c18Step(r, P)
 			lastRx = now
